@@ -491,7 +491,8 @@ class UnlinkDim:
         run.expect_ok(run.call(dh.remove_link), "unlink_dim")
         d.link = None
         d._ticks = None
-        d._labels = None
+        # (set dimensions: the property claims no labels/link exclusivity; the explicit labels that
+        #  were set before linking are still stored and show again)
         run.stats["dim_unlinked"] += 1
         return res(OK, touch={d.parent_.id: "may"}, target=d.parent_)
 
